@@ -11,8 +11,8 @@ from mc import kineto, refmodel
 ID = "C01"
 TECHNIQUE = ("explicit-state BFS over trace files (append one entry of any kind; all entry orders; all small "
              "integer/fractional time assignments; per-rank skews), real parser + loader vs reference parser")
-RULE = ("four exhaustive families: kinds = every sequence of <=L entries over 14 entry kinds (complete events of "
-        "every category, entry without args, profiler 'Trace' span, M/s/f/i entries, entry with dur but no cat, activity with stream 0 and correlation 0) "
+RULE = ("four exhaustive families: kinds = every sequence of <=L entries over 15 entry kinds (complete events of "
+        "every category incl. python_function frames, entry without args, profiler 'Trace' span, M/s/f/i entries, entry with dur but no cat, activity with stream 0 and correlation 0) "
         "after a leading host operator; times = a host op + an op + a kernel with every (ts,dur) from the "
         "integer/fractional domain x epoch offsets; ranks = R<=3 rank files with every per-rank skew in {0,1,2} "
         "and rank ids {0..},{3,5,..}, sequential and real fork-pool parse; vocab = two ranks whose symbol sets are equal or "
@@ -27,7 +27,7 @@ ASSUMPTIONS = [
     "fewer than two profiler steps, so nothing is trimmed (trimming is C12)",
 ]
 E0 = 1_700_000_000_000_000
-KINDS = "onarkyeTMsfixz"
+KINDS = "onarkyeTMsfixzp"
 
 
 def bounds(tier: str) -> Dict[str, Any]:
@@ -66,6 +66,9 @@ def ev_of_kind(k: str, ts, dur, i: int) -> Dict[str, Any]:
         return kineto.instant(ts)
     if k == "z":   # activity on the legacy default stream 0 carrying correlation id 0: both are values, not "absent"
         return kineto.kernel("kern_default_stream", ts, dur, 0, 0)
+    if k == "p":   # Python frame recorded with with_stack=True: a complete event like any other
+        return kineto.X("python_function", f"torch/nn/modules/module.py(15{i % 2}): _call_impl", kineto.HOST_PID, kineto.MAIN_TID, ts, dur,
+                        {"Python id": i, "Python parent id": None, "Ev Idx": i})
     if k == "x":
         return {"ph": "X", "name": "nocat", "pid": kineto.HOST_PID, "tid": kineto.MAIN_TID, "ts": ts, "dur": dur}
     raise ValueError(k)
